@@ -108,11 +108,17 @@ def dump (d : DSt) : String :=
     else s!" | {l}:{e}{u}")
   s!"st={st} it={it} disk={disk}" ++ String.join per
 
-/-- the pinned call-site fact behind the usage guard of `Put` (`PutGuardU`): the ONLY callers of `AccountTrieDB.Put` /
-    `CandidateTrieDB.Put` are `Manager.Save` / `CBlock.dye` (via `CandidatesRanking`, called by `Manager.Save`), the only
-    callers of `PatriciaTrie.Put` are those two wrappers, and every `Manager.Save(h)` follows `SetBlock(h, …)` in the same
-    function (consensus `saveToStore`, `SetupGenesisBlock`, the test chain).  The harness recomputes the list from the
-    current source with go/ast on every run; a new caller breaks the correspondence here. -/
+/-- the pinned SYNTACTIC call-site list next to the usage guard of `Put` (`PutGuardU`).  It is a string equality in this
+    driver, not a Lean fact, and the list is built by a go/ast scan of the harness (c09_boot.go, syntax only, no types, no
+    control flow).  What it pins: the textual callers of a 2-argument `Put` / of a 3-argument `Put` on a receiver spelled
+    `*.trie` (today: `Manager.Save`, `CBlock.dye`, the two wrappers in act_database.go) and the textual callers of
+    `am.Save(x)` / `*.am.Save(x)` with the tag `after-SetBlock` = "an EARLIER `SetBlock` call in the same function has the same
+    first-argument TEXT".  What it does NOT show: that the `Save` only runs when that `SetBlock` SUCCEEDED (the pinned entry
+    `test_chain.go:saveBlock` goes on after `store.ErrExist`, i.e. it Saves onto a block that already exists — exactly the
+    unproved late-write case; the two production callers `saveToStore` and `SetupGenesisBlock` do return / panic on every
+    `SetBlock` error, by reading), the dye argument of any `Put`, the number of `Save`s per `SetBlock`, `Put`s reached through
+    `adb.GetTrie().Put` / a local variable / a method value, `AccountTrieDB.Set` / `SetTrie` / `DelDye`.  A new textual caller
+    changes the string and breaks the correspondence here; nothing more is claimed. -/
 def expectedPutSites : String :=
   "chain/account/manager.go:Save:acctDatabase,store/act_database.go:Put:db.trie,store/act_database.go:Put:db.trie,store/cblock.go:dye:block.CandidateTrieDB | chain/consensus/dpovp.go:saveToStore:after-SetBlock,chain/genesis.go:SetupGenesisBlock:after-SetBlock,chain/testchain/test_chain.go:saveBlock:after-SetBlock"
 
